@@ -6,6 +6,8 @@ CONSTANTS
   PRECANCEL = TRUE
   ANYCANCEL = TRUE
   ANYCLOSE = TRUE
+  RECHECK = FALSE
 INVARIANT AInv
+INVARIANT ToldIsHeld
 PROPERTY CallsReturn
 CHECK_DEADLOCK TRUE
